@@ -6,6 +6,7 @@ import (
 	"os"
 	"os/exec"
 	"path/filepath"
+	"regexp"
 	"sort"
 	"strings"
 	"time"
@@ -29,19 +30,74 @@ var verifDir = func() string {
 }()
 
 type GroupResult struct {
-	Group    string   `json:"group"`
-	Files    []string `json:"files"`
-	GoPkgs   []string `json:"gopkgs"`
-	Written  []string `json:"written"`
-	Error    string   `json:"error"`
-	Crash    string   `json:"crash"`
-	Tags     []string `json:"tags"`
-	ReqPath  string   `json:"req_path"`
-	Messages []string `json:"messages"`
-	Stderr   string   `json:"stderr"`
+	Group    string         `json:"group"`
+	Files    []string       `json:"files"`
+	GoPkgs   []string       `json:"gopkgs"`
+	Written  []string       `json:"written"`
+	Error    string         `json:"error"`
+	Crash    string         `json:"crash"`
+	Tags     []string       `json:"tags"`
+	ReqPath  string         `json:"req_path"`
+	Messages []string       `json:"messages"`
+	Stderr   string         `json:"stderr"`
+	Surface  []SurfaceEntry `json:"surface"`
 	// filled by the driver
 	CompileErr string `json:"compile_err"`
 	InitPanic  string `json:"init_panic"` // the generated package panics while it registers itself (at program start)
+}
+
+// SurfaceEntry is one exported Go identifier a generated package must provide (see gen).
+type SurfaceEntry struct {
+	Pkg  string `json:"pkg"`
+	Go   string `json:"go"`
+	Kind string `json:"kind"`
+	Full string `json:"full"`
+	Num  int32  `json:"num"`
+}
+
+// surfaceSource renders surface_gen.go: the worker refers to every exported identifier of the
+// linked generated packages by name, so that which Go value a name denotes can be checked.
+func surfaceSource(groups []GroupResult, linked map[string]bool) (string, map[string]int) {
+	var sb strings.Builder
+	alias := map[string]string{}
+	owner := map[string]int{}
+	var order []string
+	var body strings.Builder
+	for gi, g := range groups {
+		if !g.OK() {
+			continue
+		}
+		for _, e := range g.Surface {
+			if !linked[e.Pkg] {
+				continue
+			}
+			a, ok := alias[e.Pkg]
+			if !ok {
+				a = fmt.Sprintf("sp%d", len(alias))
+				alias[e.Pkg] = a
+				owner[a] = gi
+				order = append(order, e.Pkg)
+			}
+			var v string
+			switch e.Kind {
+			case "message":
+				v = fmt.Sprintf("(*%s.%s)(nil)", a, e.Go)
+			case "enum":
+				v = fmt.Sprintf("%s.%s(0)", a, e.Go)
+			default:
+				v = fmt.Sprintf("%s.%s", a, e.Go)
+			}
+			fmt.Fprintf(&body, "\t\t{%q, %q, %q, %q, %d, %s},\n", e.Kind, e.Full, e.Pkg, e.Go, e.Num, v)
+		}
+	}
+	sb.WriteString("package main\n\nimport (\n")
+	for _, p := range order {
+		fmt.Fprintf(&sb, "\t%s %q\n", alias[p], p)
+	}
+	sb.WriteString(")\n\nfunc init() {\n\tsurface = []surfaceEntry{\n")
+	sb.WriteString(body.String())
+	sb.WriteString("\t}\n}\n")
+	return sb.String(), owner
 }
 
 func (g *GroupResult) OK() bool {
@@ -203,7 +259,21 @@ func NewScratch(probes bool, extra string) (*Scratch, error) {
 		if err := os.WriteFile(filepath.Join(s.Repo, "zzverif", "cmd", "h", "imports_gen.go"), []byte(sb.String()), 0o644); err != nil {
 			return s, err
 		}
+		src, owner := surfaceSource(s.Groups, seen)
+		if err := os.WriteFile(filepath.Join(s.Repo, "zzverif", "cmd", "h", "surface_gen.go"), []byte(src), 0o644); err != nil {
+			return s, err
+		}
 		if o, err := run(s.Repo, goEnv(), 15*time.Minute, "go", "build", "-tags", "verif", "-o", s.H, "./zzverif/cmd/h"); err != nil {
+			// a generated package that lacks (or mistypes) an identifier the naming rules assign
+			// to one of its entities: attributed to its group, which is left out
+			if m := surfaceErrRe.FindStringSubmatch(o); m != nil && attempt < 6 {
+				if gi, ok := owner[m[1]]; ok {
+					g := &s.Groups[gi]
+					g.CompileErr = "exported Go API: " + trunc(o, 3000)
+					imports = dropPkgs(imports, g.GoPkgs)
+					continue
+				}
+			}
 			return s, fmt.Errorf("build harness: %v\n%s", err, o)
 		}
 		var err error
@@ -230,24 +300,30 @@ func NewScratch(probes bool, extra string) (*Scratch, error) {
 		}
 		g := &s.Groups[culprit]
 		g.InitPanic = trunc(out, 3000)
-		var keep []string
-		for _, p := range imports {
-			drop := false
-			for _, q := range g.GoPkgs {
-				if p == q {
-					drop = true
-				}
-			}
-			if !drop {
-				keep = append(keep, p)
-			}
-		}
-		imports = keep
+		imports = dropPkgs(imports, g.GoPkgs)
 	}
 	if err := json.Unmarshal([]byte(out), &s.Types); err != nil {
 		return s, fmt.Errorf("h types: %v", err)
 	}
 	return s, nil
+}
+
+var surfaceErrRe = regexp.MustCompile(`surface_gen\.go:\d+:\d+: .*\b(sp\d+)\.`)
+
+func dropPkgs(imports, drop []string) []string {
+	var keep []string
+	for _, p := range imports {
+		d := false
+		for _, q := range drop {
+			if p == q {
+				d = true
+			}
+		}
+		if !d {
+			keep = append(keep, p)
+		}
+	}
+	return keep
 }
 
 func (s *Scratch) Close() {
